@@ -111,6 +111,10 @@ func (s *Session) RemoteAddr() string {
 
 // Send : send bytes, put bytes to queue, not send directly
 func (s *Session) Send(bs []byte) error {
+	if len(bs) == 0 {
+		//nothing to send: an empty item would make the send loop quit
+		return nil
+	}
 	return s.sendQ.AddReq(bs)
 }
 
